@@ -29,8 +29,10 @@ RULE = ('one bucket per driver pair (init_X / extract_X) and, for init_tensor, p
         'sub-expressions, each function offered only where its argument lies inside its domain with margin at the drawn point.  '
         'Non-trivial: N >= 2 and the expanded output polynomial has a mixed monomial (two different variables, hence degree >= 2) '
         '[smooth: N >= 2 and a non-zero off-diagonal second derivative / a Jacobian row with two non-zero entries]; distinct by '
-        'descriptor hash')
+        'descriptor hash.  complex-point: polynomial programs with complex dyadic coefficients (1-4 monomials per output, degree <= 5, N in 1..4) at '
+        'complex points through init/extract jacobian, jac_vec, hessian, hess_vec; non-trivial = N >= 2, a mixed monomial and a non-zero imaginary part')
 ASSUMPTIONS = [
+    'complex-point: reference = term-by-term differentiation of the monomials in complex128, tolerance 1e-10 x max(1, max|reference|)',
     'reference = analytic derivatives of the expanded polynomial (oracles.ExactPoly) evaluated in exact rational arithmetic; the '
     'float64/int64 seed point is converted exactly',
     'tolerance 1e-10 x max(1, M(|x| + h)) where M is the majorant of the program (all signs made positive) and h the largest step '
